@@ -264,6 +264,27 @@ theorem truthy_empty_string : toBool (.str []) = some false := rfl
 theorem truthy_list (xs : List Val) : toBool (.list xs) = some (!xs.isEmpty) := rfl
 theorem truthy_map (m : List (Val × Val)) : toBool (.map m) = some (!m.isEmpty) := rfl
 
+/-! strings: what a condition written as a string - a literal included - counts as -/
+/-- a non-empty string that spells Go's false (`0 f F false FALSE False`) is falsy -/
+theorem truthy_false_word (s : Bytes) (h : isFalseWord s = true) : toBool (.str s) = some false := by
+  simp only [toBool, tryToBool]
+  split <;> simp_all
+
+/-- a string that denotes the number zero (`0.0`, `-0`, `0e5`, `00` ...) is falsy, one that denotes another number is truthy -/
+theorem truthy_numeric_string (s : Bytes) (f : I64) (hne : s.isEmpty = false) (hw : isFalseWord s = false) (hp : FOps.parse s = some (some f)) :
+    toBool (.str s) = some (!(FOps.eq f fzero)) := by
+  simp [toBool, tryToBool, hne, hw, hp]
+
+/-- every other non-empty string is truthy -/
+theorem truthy_other_string (s : Bytes) (hne : s.isEmpty = false) (hw : isFalseWord s = false) (hp : FOps.parse s = some none) :
+    toBool (.str s) = some true := by
+  simp [toBool, tryToBool, hne, hw, hp]
+
+example : toBool (.str (strBytes "0")) = some false := truthy_false_word _ (by simp [isFalseWord])
+example : toBool (.str (strBytes "false")) = some false := truthy_false_word _ (by simp [isFalseWord])
+example : toBool (.str (strBytes "F")) = some false := truthy_false_word _ (by simp [isFalseWord])
+
+
 
 /-! ### How control moves through the branch and loop functions of the source (regenerated: Gen/StmtFlow)
 
